@@ -176,9 +176,37 @@ def _witness_part():
 
 
 def partitions(tier, seed):
-    # finite catalogue: decided entirely by the equivalence queries in kernels(); a model is replayed
-    # through the concrete witness harness above
-    return []
+    # finite catalogue: decided by the equivalence queries in kernels(); in addition every entry is
+    # re-checked concretely on the real module through the witness harness (traces validated against the
+    # implementation); nothing here is explored symbolically
+    parts = []
+    queries = ('mapping_name', 'mapping_value', 'mapping_soft', 'mapping_hard', 'mapping_amqp_error',
+               'mapping_base_ok', 'mapping_catchable', 'one_class_per_code', 'mapped_class_is_defined_class',
+               'ast_mapping_agrees')
+    body = WITNESS_BODY.replace('def body(code, query):', 'def check(code, query):') + '''
+
+def body(code):
+    ok = True
+    for q in %r:
+        ok = ok and check(code, q)
+    return ok
+''' % (queries,)
+    for code in sorted(spec.REPLY_CODES) + [200, 310, 314, 401, 500, 542]:
+        parts.append(Part(name='entry_%d' % code, params=[('code', 'int')], pre=[], body=body,
+                          prelude=common.PRELUDE, timeout=60, family='reply_code_entry',
+                          bound='reply code %d, all attributes (concrete re-check)' % code,
+                          rep={'code': code}, concrete_only=True))
+    cbody = WITNESS_BODY.replace('def body(code, query):', 'def check(code, query):') + '''
+
+def body(j):
+    return check(j, "constants") and check(0, "base_chain")
+'''
+    for j in range(len(spec.CONSTANTS)):
+        parts.append(Part(name='constant_%d' % j, params=[('j', 'int')], pre=[], body=cbody,
+                          prelude=common.PRELUDE, timeout=60, family='constant_entry',
+                          bound='constant %s (concrete re-check)' % sorted(spec.CONSTANTS)[j],
+                          rep={'j': j}, concrete_only=True))
+    return parts
 
 
 def evidence_extra(tier, kernel_results, results):
